@@ -29,6 +29,11 @@ func (w *c07Writer) WriteHeader(c int) {
 	w.ResponseRecorder.WriteHeader(c) // net/http panics on an invalid code before anything is written
 	w.hdrWrites++
 }
+
+// ReadFrom: net/http's response writer offers it (sendfile); whoever copies through it writes to the same recorder
+func (w *c07Writer) ReadFrom(r io.Reader) (int64, error) {
+	return io.Copy(struct{ io.Writer }{w}, r)
+}
 func (w *c07Writer) Write(b []byte) (int, error) {
 	if w.hdrWrites == 0 {
 		w.hdrWrites++ // implicit 200
@@ -151,11 +156,11 @@ func genC07(rng *rand.Rand, n int, emit func(Case), dist map[string]int) {
 		esx0 := esx
 		errText := errv.Error()
 		commitBefore := 0
-		commitStyle := 0 // 0: a response helper with a body, 1: Flush alone (commits 200, e.g. an SSE set-up), 2: WriteHeader then Flush
+		commitStyle := 0 // 0: a response helper with a body, 1: Flush alone (commits 200, e.g. an SSE set-up), 2: WriteHeader then Flush, 3: io.Copy into the Response (a streamed payload, implicit 200; the writer below offers ReadFrom like net/http's)
 		if rng.Intn(4) == 0 {
 			commitBefore = []int{200, 201, 404}[rng.Intn(3)]
-			commitStyle = rng.Intn(3)
-			if commitStyle == 1 {
+			commitStyle = rng.Intn(4)
+			if commitStyle == 1 || commitStyle == 3 {
 				commitBefore = 200
 			}
 		}
@@ -229,6 +234,8 @@ func genC07(rng *rand.Rand, n int, emit func(Case), dist map[string]int) {
 					c.String(commitBefore, "partial")
 				case 1:
 					c.Response().Flush()
+				case 3:
+					io.Copy(c.Response(), io.LimitReader(strings.NewReader("partial and more"), 7))
 				default:
 					c.Response().WriteHeader(commitBefore)
 					c.Response().Flush()
